@@ -68,8 +68,15 @@ func doInProc(ctx *fasthttp.RequestCtx, q rreq) (restResp, string) {
 	}
 	now0 := time.Now().Unix()
 	var resp restResp
-	pn := try(func() { resp = restDo(ctx, q.Method, q.uri(), q.body()) })
+	blocked := false
+	pn := try(func() { blocked = !irt.RunGuarded(func() { resp = restDo(ctx, q.Method, q.uri(), q.body()) }) })
 	now1 := time.Now().Unix()
+	if blocked {
+		if stream != nil {
+			rand.Reader = old
+		}
+		return resp, fmt.Sprintf("no response: the handler is blocked (no statement executed for %d s)", irt.StallSeconds)
+	}
 	if stream != nil {
 		rand.Reader = old
 	}
@@ -439,7 +446,9 @@ func (s *liveServer) stop() {
 	s.cmd.Wait()
 }
 
-func (s *liveServer) alive() bool { return s.cmd.ProcessState == nil && s.cmd.Process.Signal(syscallZero) == nil }
+func (s *liveServer) alive() bool {
+	return s.cmd.ProcessState == nil && s.cmd.Process.Signal(syscallZero) == nil
+}
 
 func (s *liveServer) do(cl *http.Client, q rreq) (restResp, error) {
 	var body io.Reader
@@ -765,7 +774,7 @@ func carryOver() []rreq {
 	long.Text = ""
 	return []rreq{
 		post("/hotp/validate", map[string]any{"secret": u, "code": ref.HOTP(restKey, 5, 8, 2), "counter": 5, "skew": 10, "digits": "8", "algorithm": "SHA512"}),
-		post("/hotp/validate", map[string]any{"secret": u, "code": ref.HOTP(restKey, 7, 6, 0)}),             // counter omitted (0), skew omitted (0): distance 7 => false
+		post("/hotp/validate", map[string]any{"secret": u, "code": ref.HOTP(restKey, 7, 6, 0)}),               // counter omitted (0), skew omitted (0): distance 7 => false
 		post("/hotp/validate", map[string]any{"secret": u, "code": ref.HOTP(restKey, 7, 6, 0), "counter": 5}), // skew omitted: distance 2 => false
 		post("/hotp/validate", map[string]any{"secret": u, "code": ref.HOTP(restKey, 5, 6, 0), "counter": 5}), // digits/algorithm omitted => true
 		post("/totp/validate", map[string]any{"secret": u, "code": ref.HOTP(restKey, ref.Step(1111111109, 60), 10, 1), "timestamp": 1111111109, "period": 60, "skew": 9, "digits": "10", "algorithm": "SHA256"}),
